@@ -11,7 +11,8 @@ RULE = ('Exhaustive part: alphabet {a,b,c}, all 39 FQNs of depth <= 3 as declara
         'rotated over the 7 searchable containers, plus imports/file names that must never be '
         'returned); every searched name (39) x every calling scope (40, incl. global) against (i) the '
         'full universe, (ii) the universe with every FQN declared twice, (iii) each single-declaration '
-        'file, (iv, thorough) each pair of declarations. Sampled part (Hypothesis): parser-built '
+        'file, (iv, thorough) each pair of declarations; the same for alphabet {a,ba,ab} (identifiers '
+        'that are character-wise affixes of each other) incl. every suffix search (find_any). Sampled part (Hypothesis): parser-built '
         'contents of random models (multi-id names, interface-nested types), random names/scopes; '
         'resolution order; suffix search; identifier validity and notation round trips for arbitrary '
         'strings. Oracle: set-comprehension specification (vf/model.py: lookup, resolution_order). '
@@ -119,6 +120,43 @@ def universe_cases(ctx):
             for name in UNIVERSE:
                 yield {'decls': decls, 'name': name, 'scope': scope,
                        'none_scope': len(decls) == 1}
+
+
+# a second alphabet whose identifiers are character-wise suffixes / prefixes of one another, so
+# that any comparison on joined strings instead of identifier lists shows
+ALPHA2 = ['a', 'ba', 'ab']
+UNIVERSE2 = [list(t) for n in (1, 2, 3) for t in itertools.product(ALPHA2, repeat=n)]
+
+
+def affix_cases():
+    full = [(KINDS[i % 7], f) for i, f in enumerate(UNIVERSE2)]
+    twice = full + [(KINDS[(i + 3) % 7], f) for i, f in enumerate(UNIVERSE2)]
+    for decls in (full, twice):
+        for name in UNIVERSE2:
+            yield {'decls': decls, 'tail': name}
+            for scope in [[]] + UNIVERSE2:
+                yield {'decls': decls, 'name': name, 'scope': scope}
+
+
+def check_affix(case):
+    if 'name' in case:
+        return check_lookup_universe(case)
+    from dznpy.ast_view import find_any
+    from dznpy.scoping import NamespaceIds
+    decls = [(k, list(f)) for k, f in case['decls']]
+    fc = build_fc(decls)
+    tail = list(case['tail'])
+    arg = NamespaceIds(list(tail))
+    res = find_any(fc, arg)
+    want = sorted((k, tuple(f)) for k, f in decls if f[-len(tail):] == tail)
+    got = sorted((kind_of(o), tuple(o.fqn.items)) for o in res.items)
+    if got != want:
+        extra = sorted(set(got) - set(want))
+        missing = sorted(set(want) - set(got))
+        raise Fail(f'find_any({tail}) extra {extra[:4]} missing {missing[:4]}', 'find_any')
+    if arg.items != tail:
+        raise Fail('find_any modified the searched name', 'find_any-mutates')
+    return None
 
 
 def nt_universe(case):
@@ -304,6 +342,9 @@ def run(ctx):
     ctx.extra['exhaustive_part'] = ('alphabet {a,b,c}, depth <= 3: 39 names x 40 scopes x '
                                     + ('(full, doubled, 39 singles)' if ctx.quick else
                                        '(full, doubled, 39 singles, 741 pairs)'))
+    ctx.enumerate('affix_exhaustive', affix_cases(), check_affix,
+                  nontrivial=lambda c: 'tail' in c or nt_universe(c),
+                  labels=lambda c: ['find_any' if 'tail' in c else 'find_fqn'])
     n = ctx.n(1200, 60000)
     ctx.clause('lookup_parsed', parsed_case(), check_lookup_parsed, n, nontrivial=nt_parsed,
                labels=lambda c: ['parsed', f'name-ids={len(c["name"])}'])
